@@ -64,8 +64,10 @@ def monitor(impl_text, obs_text):
             if mx[k] == mx[k + 1]:
                 bad.append((cid, "ne-is-not-the-negation-of-eq(mixed %d: array / double / const-pointer view / cref)" % (k // 2), line))
         e = emp.get(cid, set())
-        if p not in e and q not in e and (a != v[:5] or mx != v[:2] * (len(mx) // 2)):
+        if p not in e and q not in e and (a != v[:5] or mx[:8] != v[:2] * (len(mx[:8]) // 2)):
             bad.append((cid, "ownership-kind-changes-the-answer", line))
+        if p not in e and q not in e and len(mx) >= 12 and mx[8:12] != "0101":
+            bad.append((cid, "equal-to-an-operand-whose-elements-are-not-representable (b + 0.5 in double)", line))
     for cid, r in res.items():
         e = emp.get(cid, set())
         for p, q in (("a", "b"), ("a", "c"), ("b", "c")):
